@@ -299,6 +299,7 @@ func c11History(ca string, n int, seed uint64, withPlant, keepGoing, withCollide
 }
 
 func runC11(c *Ctx) {
+	c11SameAuthority(c)
 	type job struct {
 		ca    string
 		n     int
